@@ -11,7 +11,8 @@ from bounded import readers as RD
 EXISTING = {"flat": ["a", "b"], "nested": ["a", "m.x", "m.y"], "attrpath": ["a", "m.x", "m.y"], "comments": ["a", "b"],
             "quoted": ['"foo-bar"', '"a.b"', "a"], "deep": ["a", "m.n.x"], "attrpath-deep": ["m.n.x", "m.n.y", "a"], "inline": ["a"],
             "attrpath1": ["m.x", "a"], "inherit": ["b"], "empty": [],
-            "twins": ["z", "a.enable", "b.enable", "enable", "m.x"], "twins-inline": ["a.enable", "b.enable", "c.enable"]}
+            "twins": ["z", "a.enable", "b.enable", "enable", "m.x"], "twins-inline": ["a.enable", "b.enable", "c.enable"],
+            "attrpath-deep4": ["s.n.v.m.a", "s.n.v.m.b", "s.n.w", "k"]}
 VALUES = ["2", '"s"', "[ 1 2 ]", "{ k = 1; }"]
 
 
